@@ -1039,7 +1039,9 @@ def explore(ctx):
         ctx.product("tracks", shards, gen_tracks)
     # -- observers, control changes -------------------------------------------------------
     if ctx.want("observers"):
-        for nobs in ctx.pick([2], [2, 3]):
+        ctx.bound("observers", {"observers": [2, 3], "depth": ctx.pick(4, 6), "actions": ObserverSpec(3).actions(),
+                                "state": "listener tuple (fix-point reached below the depth bound)"})
+        for nobs in (2, 3):
             ctx.bfs("observers", ObserverSpec(nobs), ctx.pick(4, 6), label="observers (%d)" % nobs)
     if ctx.want("cc"):
         ctx.bound("cc", {"control": [CC_LO, CC_HI], "value": [CC_LO, CC_HI], "channels": [0, 1, 15]})
